@@ -148,6 +148,17 @@ impl Host {
     }
 }
 
+#[cfg(turmoil_verif)]
+impl Host {
+    pub(crate) fn verif_counts(&self) -> crate::verif::HostCounts {
+        crate::verif::HostCounts {
+            udp_binds: self.udp.binds.len(),
+            tcp_binds: self.tcp.binds.len(),
+            tcp_streams: self.tcp.sockets.len(),
+        }
+    }
+}
+
 pub(crate) struct HostTimer {
     /// Host elapsed time.
     elapsed: Duration,
